@@ -193,7 +193,7 @@ def run_model(ctx, module, cfg=None, workers=NCPU, timeout=1500, extra=(), expec
 
 def event_key(ev):
     """Stable identity of a call: the event without results/probes."""
-    drop = {"probes", "gexp", "hints", "nontriv", "sol", "sol2same", "argsSame", "out", "ok", "uni", "chk", "res", "res2same", "res2", "det", "a2", "a2int", "b", "pip", "removed", "vars", "i", "u", "d", "x", "d2", "us", "uc", "us2", "nverts", "flat", "tree", "solOpen", "onProbes", "solSwap", "hasSwap", "r64", "rd9", "t64", "td", "qa", "qb", "xa", "xb"}
+    drop = {"probes", "gexp", "hints", "nontriv", "sol", "sol2same", "argsSame", "out", "ok", "uni", "chk", "res", "res2same", "res2", "det", "a2", "a2int", "b", "pip", "removed", "vars", "i", "u", "d", "x", "d2", "us", "uc", "us2", "nverts", "flat", "tree", "solOpen", "onProbes", "solSwap", "hasSwap", "r64", "rd9", "t64", "td", "qa", "qb", "xa", "xb", "beams"}
     core = {k: v for k, v in ev.items() if k not in drop and not k.startswith("r_")}
     return hashlib.sha1(json.dumps(core, sort_keys=True).encode()).hexdigest()[:16]
 
@@ -214,7 +214,7 @@ def match_known(prop, ev, clauses):
     return None
 
 
-def drive_and_validate(ctx, plan, module="Trace", enforce=None):
+def drive_and_validate(ctx, plan, module="Trace", enforce=None, advisory=False):
     """plan: list of dicts {driver, n, probes, chunks}. Drives the real code, validates every
     chunk with TLC in parallel, then triages rejected events."""
     jobs = []
@@ -258,6 +258,13 @@ def drive_and_validate(ctx, plan, module="Trace", enforce=None):
         for idx in r["rejected"]:
             ev = json.loads(lines[idx - 1])
             rejected.append((ev, r["fails"].get(idx, ["?"]), r.get("module", module), r["driver"]))
+    if advisory:
+        # component-level checks (e.g. the scan-beam invariants) are necessary conditions of the design, not the
+        # listed property itself: their rejections are recorded in the evidence, never reported as violations
+        ctx.notes.append("advisory component check %s: %d of %d events rejected %s" % (
+            [i["driver"] for i in plan], len(rejected), sum(r["n"] for r in results),
+            sorted(set(c for _, cl, _, _ in rejected for c in cl))))
+        return results
     triage(ctx, rejected, module)
     return results
 
